@@ -94,6 +94,25 @@ func c06domain(thorough bool) []refimpl.Rec {
 		r := ctx
 		r.Seq, r.Qual, r.Cigar = "ACGT", []byte{0, 1, 92, 93}, []uint32{cig('M', 4)}
 		out = append(out, r)
+		// records whose BAM body is exactly 4095, 4096 and 4097 bytes (the reader's inline buffer)
+		for _, body := range []int{4095, 4096, 4097} {
+			for nl := 1; nl <= 4; nl++ {
+				r := ctx
+				r.Name = strings.Repeat("k", nl)
+				r.Aux = nil
+				r.Cigar = []uint32{cig('M', 1)} // one operation; its length is set below
+				l := seqLenForBody(r, body)
+				if l < 1 {
+					continue
+				}
+				r.Seq, r.Qual = seqOf(l), qualOf(l)
+				r.Cigar = []uint32{cig('M', l)}
+				if len(refimpl.BAMRecord(&r))-4 == body {
+					out = append(out, r)
+					break
+				}
+			}
+		}
 		for _, l := range []int{5000, 4100} { // records larger than a 4 KiB buffer, in SAM and in BAM
 			r := ctx
 			r.Seq, r.Qual, r.Cigar = seqOf(l), qualOf(l), []uint32{cig('M', l)}
